@@ -101,14 +101,11 @@ def run(ctx):
     expect(v6, 'set_source', v6_source, "request's destination, or the solicited ND target returned by icmpv6::repl")
     # the ND substitution happens only on the ICMPv6 arm
     nd_defs = []
-    for bi, b in enumerate(v6.blocks):
-        if b['cleanup']:
-            continue
-        for i, s in enumerate(b['stmts']):
-            if not s['lhs']['p'] and v6.locals[s['lhs']['l']]['name'] == 'dst':
-                val = v6.rvalue(s['rv'], (bi, i))
-                if not getter('get_destination', 'Ipv6Packet')(val):
-                    nd_defs.append((bi, val))
+    ssb = setter_sites(v6, 'set_source')
+    srcvar = var_feeding(v6, ssb[0][0], 1) if len(ssb) == 1 else None
+    for bi, i, val in (defs_of_local(v6, srcvar) if srcvar is not None else []):
+        if not getter('get_destination', 'Ipv6Packet')(val):
+            nd_defs.append((bi, val))
     for bi, val in nd_defs:
         found, vals = arm_value(v6, is_nh, bi)
         rep.check(r1, vals == [58], 'layer_3::ipv6::repl:dst-substitution', 'dst reassigned to %s on arm %s (allowed: ICMPv6 only)' % (short(val)[:80], vals), v6.loc(bi))
